@@ -414,6 +414,15 @@ Definition oracle_untouched (cur : uref) (vals : list Q) (o : oobs) : Z :=
   | OOut vs c => if all_aclose 0 0 vs vals && uref_eqb c cur then 0%Z else 2%Z
   end.
 
+(* an entry of the FROZEN independent reference (spec/c06_unit_reference.json): "x u" is "f * x + o" of unit r.
+   [ref_entry_ok tol T e]: the registry table T gives unit u that meaning *)
+Definition ref_entry_ok (tol : Q) (T : tables) (e : string * string * Q * Q) : bool :=
+  let '(u, r, f, o) := e in
+  match t_parse T u, t_parse T r with
+  | Some a, Some b => same_dim a b && rel_close tol (convert a b 1 - convert a b 0) f && aclose tol tol (convert a b 0) o
+  | _, _ => false
+  end.
+
 (* well-formedness of a registry table: one long name, one meaning *)
 Fixpoint wf_pint_against (c : punit) (l : list (string * option punit)) : bool :=
   match l with
